@@ -2,10 +2,13 @@
    Proved: the status classification order of Board::state; for every board the parser accepts or the
    builder returns, in_check() = "the side to move's king is attacked" in the rules-level sense
    (C03_in_check_parsed, C03_in_check_built); from-scratch pin/check information does not change the
-   abstract position. OPEN: the same for boards reached by moves (incremental update), and C03_fresh (decided by the correspondence: in_check/state against the rules spec, moved
-   board against the re-parsed one on legal moves, hash, text, Debug rendering, pins, checkers). *)
+   abstract position. CLOSED in this round for EVERY reachable board (any number of moves): in_check = the rules'
+   notion (C03_in_check_reachable); Board::state = the rules' classification mate / draw / check / running
+   (C03_state_reachable); the cached pins and checkers are the from-scratch ones (C03_pins_never_stale); the board is
+   read back exactly from its own FEN text (C03_fresh_reachable) and is THE SAME record - hash, pins, checkers, every
+   field - as the same position obtained any other way (C03_indistinguishable). *)
 From Coq Require Import NArith List Bool.
-From Chess Require Import base.Bits base.Types base.BitBoard model.Board model.MoveGen model.Apply model.Fen spec.Rules proofs.CoreFacts proofs.BridgeFacts proofs.PlayableFacts.
+From Chess Require Import base.Bits base.Types base.BitBoard model.Board model.MoveGen model.Apply model.Fen spec.Rules proofs.CoreFacts proofs.BridgeFacts proofs.PlayableFacts proofs.StatusFacts proofs.Reachable proofs.ReachableMore.
 Local Open Scope N_scope.
 
 Theorem C03_state_classification : forall b,
@@ -30,3 +33,25 @@ Definition C03_in_check_statement (Reach : board -> Prop) : Prop :=
   forall b, Reach b -> Board.in_check b = Rules.in_check (abs b).
 Definition C03_fresh_statement (Reach : board -> Prop) : Prop :=
   forall b, Reach b -> b_half b <= 9999 -> b_full b <= 9999 -> parse_fen (write_fen b) = Some b.
+
+Theorem C03_in_check_reachable : C03_in_check_statement Reachable.
+Proof. exact in_check_reachable. Qed.
+Print Assumptions C03_in_check_reachable.
+
+Theorem C03_fresh_reachable : C03_fresh_statement Reachable.
+Proof. exact roundtrip_reachable. Qed.
+Print Assumptions C03_fresh_reachable.
+
+Theorem C03_state_reachable : forall b, Reachable b -> state b = gstate_of (classify (abs b)).
+Proof. exact state_reachable. Qed.
+Print Assumptions C03_state_reachable.
+
+Theorem C03_pins_never_stale : forall b, Reachable b ->
+  b_pinned b = b_pinned (update_pin_info b) /\ b_checkers b = b_checkers (update_pin_info b).
+Proof. exact fresh_reachable. Qed.
+Print Assumptions C03_pins_never_stale.
+
+Theorem C03_indistinguishable : forall a b, Reachable a -> Reachable b -> board_eqb a b = true ->
+  b_half a = b_half b -> b_full a = b_full b -> a = b.
+Proof. exact reachable_determined. Qed.
+Print Assumptions C03_indistinguishable.
